@@ -192,7 +192,7 @@ func (d *TickDriver) Step(x *Exec, n *Node, i int) StepResult {
 	h := w.Contracts["netmap"].Hash
 	where := map[string]any{"op": o.kind, "signer": o.signer}
 	viol := func(class, msg string) StepResult {
-		return StepResult{V: Viol(class, msg, where), Outcome: "VIOLATION"}
+		return StepResult{V: Viol(class, msg, where), Outcome: "violation"}
 	}
 	if o.kind == "nextBlock" {
 		return StepResult{Next: &Node{L: n.L, H: n.H + 1, TS: n.TS + 1000, M: m}, Outcome: "CLOCK"}
